@@ -115,9 +115,9 @@ Proof.
     rewrite Hn'. rewrite !byte_len_app. rewrite !Nat.add_assoc. reflexivity.
 Qed.
 
-Lemma decl_step_token : forall ts, decl_step_for (DToken ts).
+Lemma decl_step_token : forall k ts, decl_step_for k (DToken ts).
 Proof.
-  intros ts src pre dl rest i f n a g e lvl Hs Hi Hwf _.
+  intros k ts src pre dl rest i f n a g e lvl Hs Hi Hwf _ _.
   destruct Hwf as [[Hl0 Hnl0] [Hne Hw]].
   cbn [print_decl] in Hs. cbn [is_prec].
   set (body := print_toks (dg dl) (dq dl) 0 ts) in *.
